@@ -1,4 +1,4 @@
-import SamplyModel.Lemmas.ProfileMain
+import SamplyModel.Lemmas.ProfileCanonical
 /-!
 # C03 — every serialized profile is internally consistent (no dangling index)
 
@@ -128,6 +128,85 @@ holds for any stable or unstable sort by it); in particular main threads come fi
 theorem C03_thread_order (p : P) (pi : Nat) :
     (procBlock p pi).Pairwise (fun a b => mainOf p a = true ∨ mainOf p b = false) :=
   (procBlock_pairwise p pi).imp (fun hab => threadCmp_main _ _ _ hab)
+
+/-! ### Canonical interning -/
+
+/-- the accepted prefix of an accepted sequence, and validity of the next op -/
+theorem C03_accepted_split (pre : List Op) (op : Op) (post : List Op)
+    (h : Accepted (pre ++ op :: post) = true) :
+    Accepted pre = true ∧ handlesValid (run pre) op = true := by
+  have hsplit : ∀ (l : List Op) (p : P), AcceptedFrom p (l ++ op :: post) = true →
+      AcceptedFrom p l = true ∧ handlesValid (l.foldl (fun p o => (step p o).1) p) op = true := by
+    intro l
+    induction l with
+    | nil => intro p hp; simp only [List.nil_append, AcceptedFrom, Bool.and_eq_true] at hp; exact ⟨rfl, hp.1.1⟩
+    | cons o os ih =>
+      intro p hp
+      simp only [List.cons_append, AcceptedFrom, Bool.and_eq_true] at hp ⊢
+      obtain ⟨h1, h2⟩ := ih _ hp.2
+      exact ⟨⟨hp.1, h1⟩, h2⟩
+  exact hsplit pre P.init h
+
+/-- **Append-only.** No operation — accepted or not — changes an existing stack row or frame key of any
+thread: the tables only grow at the end. -/
+theorem C03_append_only (p : P) (op : Op) : Grow p (step p op).1 := step_grow p op
+
+/-- **Canonical interning of stacks (1).** If `handle_for_stack(thread, frame, parent)` returned the
+handle `(t, i)` at some point of an accepted history, then *at the end of the history* walking stack `i`
+gives the frames of `parent` (as walked at the end) followed by `frame`. By induction over the handles
+this is the frame list the caller supplied. -/
+theorem C03_canonical_stack (pre post : List Op) (t : Nat) (frame : TH) (parent : Option TH) (i : Nat)
+    (h : Accepted (pre ++ .stack t frame parent :: post) = true)
+    (hout : (step (run pre) (.stack t frame parent)).2 = .h [t, i]) :
+    (run (pre ++ .stack t frame parent :: post)).stackFrames? (t, i) =
+      (run (pre ++ .stack t frame parent :: post)).extendFrames? parent frame.2 := by
+  obtain ⟨hpre, hv⟩ := C03_accepted_split pre _ post h
+  have hi := Inv.run pre hpre
+  simp only [handlesValid, Bool.and_eq_true, decide_eq_true_eq] at hv
+  obtain ⟨⟨ht, hf⟩, hp⟩ := hv
+  have hrun : run (pre ++ .stack t frame parent :: post) =
+      post.foldl (fun p op => (step p op).1) (P.stack (run pre) t frame parent).1 := by
+    simp [run, List.foldl_append, step]
+  rw [hrun]
+  exact canonical_stack_after (run pre) hi.1 t frame parent i ht hf hp hout post
+
+/-- **Canonical interning of stacks (2).** A handle returned by `handle_for_stack_frames(thread, frames)`
+denotes, at the end of every accepted history, exactly the frame list that was passed. -/
+theorem C03_canonical_stack_frames (pre post : List Op) (t : Nat) (frames : List TH) (i : Nat)
+    (h : Accepted (pre ++ .stackFrames t frames :: post) = true)
+    (hout : (step (run pre) (.stackFrames t frames)).2 = .h [t, i]) :
+    (run (pre ++ .stackFrames t frames :: post)).stackFrames? (t, i) = some (frames.map (·.2)) := by
+  obtain ⟨hpre, hv⟩ := C03_accepted_split pre _ post h
+  have hi := Inv.run pre hpre
+  simp only [handlesValid, Bool.and_eq_true, decide_eq_true_eq] at hv
+  have hrun : run (pre ++ .stackFrames t frames :: post) =
+      post.foldl (fun p op => (step p op).1) (P.stackFrames (run pre) t frames).1 := by
+    simp [run, List.foldl_append, step]
+  rw [hrun]
+  exact canonical_stackFrames_after (run pre) hi.1 t frames i hv.1 hv.2 hout post
+
+/-- **Canonical interning of stacks (3).** In every reachable state two different rows of a stack table
+denote different frame lists (a call stack is interned exactly once), and two different rows of a frame
+table carry different frame keys. -/
+theorem C03_canonical_injective (ops : List Op) (h : Accepted ops = true) :
+    ∀ th ∈ (run ops).threads,
+      (∀ (i j : Nat), i < th.stacks.prefixes.length → j < th.stacks.prefixes.length →
+        walk th.stacks.prefixes th.stacks.frames (i + 1) i = walk th.stacks.prefixes th.stacks.frames (j + 1) j →
+        i = j) ∧
+      th.frames.keys.Nodup := by
+  intro th hth
+  obtain ⟨_, a2, _, a4, _⟩ := (Inv.run ops h).1.threads th hth
+  exact ⟨walk_injective th.stacks _ a4, a2.2.2.2.2.2.2.2.2.2.2.2.2.2⟩
+
+/-- **Frame handles are stable.** The frame key behind a valid frame handle is the same at the end of any
+continuation of the history. -/
+theorem C03_frame_key_stable (pre post : List Op) (f : TH) (hv : (run pre).frameOk f = true) :
+    ∃ th th', (run pre).threads[f.1]? = some th ∧ (run (pre ++ post)).threads[f.1]? = some th' ∧
+      th'.frames.keys[f.2]? = th.frames.keys[f.2]? ∧ f.2 < th.frames.keys.length := by
+  have hrun : run (pre ++ post) = post.foldl (fun p op => (step p op).1) (run pre) := by
+    simp [run, List.foldl_append]
+  rw [hrun]
+  exact grow_frameKey (run_grow post (run pre)) f hv
 
 /-- **The known defect** (not excluded by handle validity, only by `allocFirst`): an allocation sample
 of the second thread with a stack of that thread lands in the first thread's table, whose stack table
